@@ -242,6 +242,8 @@ func VH_C19_Purity() {
 	s.Items = append(s.Items, &Item{StartAt: 5000 * time.Second, EndAt: 5001 * time.Second, Lines: []Line{{VoiceName: "Bob", Items: []LineItem{{Text: "a", InlineStyle: &StyleAttributes{SRTBold: true, WebVTTTags: []WebVTTTag{{Name: "b"}}}}, {Text: "b"}}}}})
 	// a cue whose last run and whose last line are empty (what a reader may leave behind)
 	s.Items = append(s.Items, &Item{StartAt: 6000 * time.Second, EndAt: 6001 * time.Second, Lines: []Line{{Items: []LineItem{{Text: "Third"}, {Text: ""}}}, {Items: []LineItem{{Text: ""}}}}})
+	// a cue with a line without runs between two lines (what the TTML reader returns for a<br/><br/>b)
+	s.Items = append(s.Items, &Item{StartAt: 7000 * time.Second, EndAt: 7001 * time.Second, Lines: []Line{{Items: []LineItem{{Text: "first"}}}, {}, {Items: []LineItem{{Text: "third"}}}}})
 	before := vc19Clone(s)
 	vreach("pre")
 	if format == 4 {
